@@ -86,22 +86,35 @@ int main(void) {
         if (QV_TRY(10)) {
             if (!strcmp(op, "put")) {
                 int k = atoi(a1); size_t nv = unhex(a2, vbuf);
-                unsigned char *kk = malloc(keylen[k] ? keylen[k] : 1); memcpy(kk, keys[k], keylen[k]);
-                unsigned char *vv = malloc(nv ? nv : 1); memcpy(vv, vbuf, nv);
+                /* key and value in exact-size buffers ending at inaccessible pages */
+                guard_t gk = guard_alloc(keylen[k] ? keylen[k] : 1, 0), gv = guard_alloc(nv ? nv : 1, 0);
+                unsigned char *kk = keylen[k] ? gk.p : gk.p + 1, *vv = nv ? gv.p : gv.p + 1; memcpy(kk, keys[k], keylen[k]); memcpy(vv, vbuf, nv);
                 bool r = qhasharr_put_by_obj(t, kk, keylen[k], vv, nv);
-                memset(kk, 0x5A, keylen[k]); free(kk); memset(vv, 0x5A, nv); free(vv);
+                guard_free(gk); guard_free(gv);
                 printf("%s", r ? "true" : "false");
             } else if (!strcmp(op, "get")) {
                 /* the key is presented from buffers of varying alignment (put: malloc'd copy; get/del: offset 0..3 in turn):
                    the table is a function of the key bytes, not of where the caller keeps them */
                 static unsigned opno; int k = atoi(a1); size_t ds = 0;
-                unsigned char *kb = malloc(keylen[k] + 8), *kk = kb + (++opno & 3); memcpy(kk, keys[k], keylen[k]);
-                void *d = qhasharr_get_by_obj(t, kk, keylen[k], &ds); free(kb);
+                void *d;
+                if (++opno & 4) {            /* every other group of four: an exact-size buffer ending at an inaccessible page */
+                    guard_t g = guard_alloc(keylen[k] ? keylen[k] : 1, 0); unsigned char *kk = keylen[k] ? g.p : g.p + 1; memcpy(kk, keys[k], keylen[k]);
+                    d = qhasharr_get_by_obj(t, kk, keylen[k], &ds); guard_free(g);
+                } else {
+                    unsigned char *kb = malloc(keylen[k] + 8), *kk = kb + (opno & 3); memcpy(kk, keys[k], keylen[k]);
+                    d = qhasharr_get_by_obj(t, kk, keylen[k], &ds); free(kb);
+                }
                 if (d) { puthex(stdout, d, ds); free(d); } else printf("none");
             } else if (!strcmp(op, "del")) {
                 static unsigned opno2; int k = atoi(a1);
-                unsigned char *kb = malloc(keylen[k] + 8), *kk = kb + (++opno2 & 3); memcpy(kk, keys[k], keylen[k]);
-                bool r = qhasharr_remove_by_obj(t, (char *)kk, keylen[k]); free(kb);
+                bool r;
+                if (++opno2 & 4) {
+                    guard_t g = guard_alloc(keylen[k] ? keylen[k] : 1, 0); unsigned char *kk = keylen[k] ? g.p : g.p + 1; memcpy(kk, keys[k], keylen[k]);
+                    r = qhasharr_remove_by_obj(t, (char *)kk, keylen[k]); guard_free(g);
+                } else {
+                    unsigned char *kb = malloc(keylen[k] + 8), *kk = kb + (opno2 & 3); memcpy(kk, keys[k], keylen[k]);
+                    r = qhasharr_remove_by_obj(t, (char *)kk, keylen[k]); free(kb);
+                }
                 printf("%s", r ? "true" : "false");
             } else if (!strcmp(op, "delidx")) {
                 int i = atoi(a1); printf("%s", (i < cap && qhasharr_remove_by_idx(t, i)) ? "true" : "false");
